@@ -241,11 +241,15 @@ func C03(tier string) int {
 		all = append(all, Config{Name: fmt.Sprintf("field helpers get_id/zeros_prefix on %d-bit fields", n), Func: "zzC03Bits", Args: []Arg{I(n), I(3)},
 			Setup: func(in *symgo.Interp) { in.MaxUnwind = 200 }})
 	}
+	// the whole-program entry point with comment and blank lines
+	for _, mask := range []int{0, 1, 2, 8, 0x100, 0x800, 0x305, 0xf0f} {
+		all = append(all, Config{Name: fmt.Sprintf("Arch.Assembler on a program with comments/blank lines (mask %#x)", mask), Func: "zzC03Program", Args: []Arg{I(mask)}})
+	}
 	cfgs := FilterConfigs(all)
 	sp := &Spec{
 		ID: "C03", Level: "proof", Tier: tier, Harness: h,
 		LoadPkgs: []string{"pkg/procbuilder"},
-		Opts:     RunOpts{Inits: []string{"pkg/procbuilder"}, PanicObl: true, Pkg: h.Pkg},
+		Opts:     RunOpts{Inits: []string{"pkg/bmnumbers", "pkg/procbuilder"}, PanicObl: true, Pkg: h.Pkg},
 		Configs:  cfgs,
 		Assumptions: []string{
 			"stub: procbuilder.Process_number(decimal literal of v) returns the minimal binary string of v and strconv.Itoa round-trips through it (contract validated natively at every run on boundary and pseudo-random values: harness zzC03Stub); the number library itself is C08's subject",
@@ -253,6 +257,7 @@ func C03(tier string) int {
 			"architectures satisfy the opcode's resource preconditions (N>=1 for input opcodes, M>=1 for output opcodes, L>=1 for RAM opcodes)",
 			"mode ha only; shared-object and floating-point-literal operands are outside",
 			"input text is ASCII",
+			"whole programs: Arch.Assembler on a four-instruction text with comment and blank lines at eight placements yields one word of the architecture's width per instruction, equal to the line's own encoding",
 			"field helpers: get_id and zeros_prefix are decided for all bit strings of lengths 1..62 (selected lengths): get_id is the value of the bits, zeros_prefix pads with zeros to exactly the width and keeps the value",
 		},
 		Bounds: map[string]interface{}{"architectures": archStrings(archs), "numeric_bit_lengths": "quick: {1,w-1,w,w+1,w+2}; thorough: 1..min(w+2,18)", "opcodes_with_shapes": len(c03Shapes), "opcode_sets": map[string]string{"setA": setA, "setB": setB, "setC": setC, "setAll": setAll}},
